@@ -9,6 +9,8 @@ mkdir -p "$out"
 git -C /repo worktree add -q --detach "$wt" HEAD || exit 2
 trap 'git -C /repo worktree remove --force "$wt" >/dev/null 2>&1; rm -rf "$out"' EXIT
 fail=0; n=0
+only_prop=""
+if [ "${1:-}" = "--prop" ]; then only_prop="$2"; shift 2; fi
 run_one() { # id prop patch expect
   id="$1"; prop="$2"; patch="$3"; expect="$4"
   ( cd "$wt" && git checkout -q -- . && git apply "$patch" ) || { echo "SELFTEST $id: patch does not apply (stale mutant)"; fail=1; return; }
@@ -29,6 +31,7 @@ for j in /verif/selftest/mutants/*.json; do
   id=$(basename "$j" .json)
   [ -n "$1" ] && [[ "$id" != *"$1"* ]] && continue
   prop=$(python3 -c "import json;print(json.load(open('$j'))['property'])")
+  [ -n "$only_prop" ] && [ "$prop" != "$only_prop" ] && continue
   expect=$(python3 -c "import json;print(json.load(open('$j'))['expect'])")
   run_one "$id" "$prop" "/verif/selftest/mutants/$id.patch" "$expect"
 done
@@ -36,6 +39,7 @@ for d in /verif/seeded/*/; do
   id=$(basename "$d")
   [ -n "$1" ] && [[ "$id" != *"$1"* ]] && continue
   prop=$(python3 -c "import json;print(json.load(open('$d/meta.json'))['breaks_property'])")
+  [ -n "$only_prop" ] && [ "$prop" != "$only_prop" ] && continue
   run_one "seeded-$id" "$prop" "$d/patch.diff" ""
 done
 echo "SELFTEST ran $n mutants, failures: $fail"
